@@ -6,6 +6,7 @@ constructor rejects raises ``ConstructorRejected`` - callers treat that as a
 finding (C13/C01), except where a class overrides ``validate_args`` with a rule
 this generator does not know (then ``GenGiveUp``).
 """
+import random as _random
 from vf.gen import values
 from vf.oracles import ref_decl
 
@@ -27,9 +28,10 @@ ONE_OR_MORE = {"MSGSETCORE", "MFACHALLENGERS", "MSGSETLIST", "CONTRIBINFO", "TAX
 
 
 class Opts:
-    def __init__(self, stratum="mixed", run_order=True, value_fn=None, maxdepth=9, force=(), exclude=()):
+    def __init__(self, stratum="mixed", run_order=True, value_fn=None, maxdepth=9, force=(), exclude=(), explicit_none=False):
         self.stratum = stratum
         self.run_order = run_order
+        self.explicit_none = explicit_none  # absent optional children are passed as keyword=None instead of being left out
         self.value_fn = value_fn  # optional override: (rng, desc, clsname, attr) -> value or NotImplemented
         self.maxdepth = maxdepth
         self.force = tuple(force)  # children of the ROOT class that must be present (list attr: >=1 member)
@@ -241,6 +243,13 @@ def make_args(cls, rng, profile="random", depth=0, opts=None):
             kwargs[k] = build(t.__type__, rng, profile, depth + 1, opts)
         else:
             kwargs[k] = _value(rng, t, cls.__name__, k, opts)
+    if opts.explicit_none:
+        # callers that build keyword dictionaries programmatically pass the children they do not have as None: the same instance
+        # (drawn from a generator of its own, so that the values above are what they would be without this)
+        r2 = _random.Random(f"{cls.__name__}/{depth}/{sorted(kwargs)}/none")
+        for k, on in present.items():
+            if not on and ref_decl.kind_of(d[k]) in ("elem", "sub") and r2.random() < 0.3:
+                kwargs[k] = None
     args = []
     for m in members:
         t = d[m]
